@@ -108,6 +108,9 @@ pub struct Local {
   pub evals: u64,
   pub accepted: u64,
   pub panics: u64,
+  /// violation keys already reported from this chunk -> smallest reported input length (keeps the
+  /// shared violation table out of the hot path when one defect is hit by millions of inputs)
+  pub reported: HashMap<String, usize>,
 }
 impl Local {
   pub fn flush(&mut self, ctx: &Ctx) {
@@ -142,7 +145,19 @@ pub fn run1(ctx: &Ctx, e: &Entry, input: In<'_>, local: &mut Local, keep_distinc
     Err(p) => {
       let stage = STAGE.with(|c| c.get());
       let entry = if stage.is_empty() { e.name.to_string() } else { format!("{}>{}", e.name, stage) };
-      ctx.violation(&format!("{entry}|{}", p.key()), &format!("{} @ {}", p.msg, p.loc), &input.case(e.name));
+      let key = format!("{entry}|{}", p.key());
+      let ilen = match &input {
+        In::S(s) => s.len(),
+        In::B(b) => 2 * b.len(),
+      };
+      let report = match local.reported.get(&key) {
+        Some(l) => ilen < *l,
+        None => true,
+      };
+      if report {
+        ctx.violation(&key, &format!("{} @ {}", p.msg, p.loc), &input.case(e.name));
+        local.reported.insert(key, ilen);
+      }
       local.panics += 1;
       "PANIC"
     }
@@ -225,17 +240,34 @@ pub fn par_chunks<T: Sync>(ctx: &Ctx, items: &[T], f: impl Fn(&T, &mut Local) ->
   tot
 }
 
+/// Debug aid: `C05_ONLY=a,b` restricts the run to entry points whose name contains one of the substrings,
+/// `C05_FAMILY=strings,json` to the named families. Unset in registered runs.
+pub fn only(entry: &str) -> bool {
+  match std::env::var("C05_ONLY") {
+    Ok(v) if !v.is_empty() => v.split(',').any(|x| entry.contains(x)),
+    _ => true,
+  }
+}
+fn family(name: &str) -> bool {
+  match std::env::var("C05_FAMILY") {
+    Ok(v) if !v.is_empty() => v.split(',').any(|x| x == name),
+    _ => true,
+  }
+}
+
 fn generate(ctx: &Ctx) {
   ctx.rule(
     "per entry point: complete enumeration of (a) all strings over the entry's adversarial alphabet up to the tier's length inside each fixed (prefix,suffix) frame [prefix tree: states = strings, transitions = extensions by one symbol], (b) structured grids (timestamps, IOTA DIDs), (c) binary header/length/truncation/bit-flip spaces, (d) JSON-tree node x mutation menu (singles; all pairs in thorough), (e) token byte-substitution / segment surgery / claim tables, (f) census-driven argument tables, (g) hostile-size generators in an RLIMIT_AS child. distinct_nontrivial = distinct (entry, input) pairs that were ACCEPTED by the entry point (so that the accessor/serialiser stage ran) or panicked; for prefix-tree sweeps only inputs with an enumerated part of <= 4 symbols are entered into the distinct set (longer ones are only counted in the histogram)",
   );
   ctx.assume("a panic is observed as an unwind (panic=unwind, overflow-checks and debug-assertions on in the release profile); aborts are only observable in the hostile family, which runs in a child process");
   ctx.assume("the outcome (accept/reject) of an input is recorded, never judged: the only judged predicate is 'returned without unwinding/aborting'");
-  strings::generate(ctx);
-  binary::generate(ctx);
-  json::generate(ctx);
-  tokens::generate(ctx);
-  census::generate(ctx);
+  for (name, f) in [("strings", strings::generate as fn(&Ctx)), ("binary", binary::generate), ("json", json::generate), ("tokens", tokens::generate), ("census", census::generate)] {
+    if family(name) {
+      let t0 = ctx.elapsed_s();
+      f(ctx);
+      eprintln!("[C05] family {name}: {:.1}s", ctx.elapsed_s() - t0);
+    }
+  }
 }
 
 fn main() {
